@@ -178,6 +178,7 @@ func (ex *Exec) loopCut(st *State, h *ssa.BasicBlock, prev *ssa.BasicBlock, k co
 		}
 		arrive.top().Regs[phi] = ex.val(arrive, phi.Edges[idx])
 	}
+	invs = ex.chooseAlternatives(arrive, invs, h)
 	phase := "init"
 	if backEdge {
 		phase = "preserved"
@@ -220,6 +221,57 @@ func (ex *Exec) loopCut(st *State, h *ssa.BasicBlock, prev *ssa.BasicBlock, k co
 	st.curLoop = h
 	ex.runBlock(st, h, prev, start, k)
 	return true
+}
+
+// chooseAlternatives: an invariant may come with alternatives, `invariant[label|alt] e`, for a loop that carries the
+// same information in another variable (the previous signer as a key, or as an address). The first clause of a label
+// whose expression binds to the code at hand is the one that is assumed and checked, under the plain label.
+func (ex *Exec) chooseAlternatives(st *State, invs []*Clause, h *ssa.BasicBlock) []*Clause {
+	base := func(l string) string {
+		if i := strings.Index(l, "|"); i >= 0 {
+			return l[:i]
+		}
+		return l
+	}
+	hasAlt := false
+	for _, cl := range invs {
+		if strings.Contains(cl.Label, "|") {
+			hasAlt = true
+		}
+	}
+	if !hasAlt {
+		return invs
+	}
+	var out []*Clause
+	done := map[string]bool{}
+	for _, cl := range invs {
+		b := base(cl.Label)
+		if done[b] {
+			continue
+		}
+		var group []*Clause
+		for _, c2 := range invs {
+			if base(c2.Label) == b {
+				group = append(group, c2)
+			}
+		}
+		chosen := group[0]
+		if len(group) > 1 {
+			ctx := &EvalCtx{ex: ex, pre: ex.topPre, post: st, vars: ex.topVars, bound: map[string]Value{}, fn: st.top().Fn, loopHeader: h}
+			for _, g := range group {
+				if _, err := ctx.EvalBool(g.E); err == nil {
+					chosen = g
+					break
+				}
+				ctx.side = nil
+			}
+		}
+		cp := *chosen
+		cp.Label = b
+		out = append(out, &cp)
+		done[b] = true
+	}
+	return out
 }
 
 func (ex *Exec) checkInvariants(st *State, invs []*Clause, ord int, phase string, h *ssa.BasicBlock) {
@@ -544,6 +596,22 @@ func scanShape(h *ssa.BasicBlock) *ssa.Phi {
 				}
 			case *ssa.MakeInterface, *ssa.TypeAssert:
 				return nil
+			case *ssa.Alloc:
+				// an iteration-local variable (the per-iteration copy of a range value)
+			case *ssa.Store:
+				// only into an iteration-local variable
+				root := x.Addr
+				for {
+					if fa, ok := root.(*ssa.FieldAddr); ok {
+						root = fa.X
+						continue
+					}
+					break
+				}
+				al, ok := root.(*ssa.Alloc)
+				if !ok || !body[al.Block()] || al.Heap && false {
+					return nil
+				}
 			default:
 				return nil
 			}
